@@ -122,4 +122,12 @@ def op_query(payload):
     return result_json(it, w, err, warnings)
 
 
+def op_querytrace(payload):
+    case = json.loads(payload)
+    it, w, warnings, err = run_case(case, case['py'])
+    return json.dumps({'err': err, 'setHeaderCalls': w.set_header_calls, 'headerAfterWrite': w.header_after_write, 'finished': w.finished,
+                       'writes': w.writes, 'header': w.header}, sort_keys=True, ensure_ascii=False)
+
+
 impl_py.RAW_OPS['query'] = op_query
+impl_py.RAW_OPS['querytrace'] = op_querytrace
